@@ -25,7 +25,7 @@ def run(ctx):
                 "integer KRA and TS-cluster values, random spectators; non-trivial = distinct (config, occupation, "
                 "transition) with a reported barrier")
     # hcp221p / hcp221v: two mobile sites per cell, jumps between DIFFERENT basis sites (without / with a vacancy)
-    cfgs = ["sc221j", "b2s221", "fccnd", "sc221v", "b2s221v", "tet2_211", "tet2_211v", "hcp221v", "hcp221p"]
+    cfgs = ["sc221j", "b2s221", "fccnd", "sc221v", "b2s221v", "tet2_211", "tet2_211v", "hcp221v", "hcp221p", "fccndt", "fcc222t"]
     if not quick:
         cfgs += ["sc222j", "sc222v", "fcc222", "fcc222v", "hcp221", "b2s222", "b2s222v"]
     for rep in range(1 if quick else 2):
